@@ -774,6 +774,238 @@ def norm_zip(t, k, repo):
     drop_txt = ("impl<S, const N: usize> PinnedDrop for Zip<S, N> {\n    fn drop(self: Pin<&mut Self>) {\n        %s\n    }\n}\n" % ' '.join(dbody))
     return struct_txt + "\n" + ctor_txt + "\n" + poll_txt + "\n" + drop_txt
 
+
+def norm_race(t, k, repo):
+    """the tuple `race` (src/future/race/tuple.rs): no helper module, the children are fields of the struct itself, the dispatch
+    is `if i == Indexes::F as usize { match <poll F> { Ready(o) => { …; return }, _ => continue } }` over a LOCAL
+    `#[repr(usize)] enum Indexes` that lists the children in order (R8)"""
+    S = 'Race' + str(k)
+    si = find(t, ['struct', S, '<'])
+    if si < 0:
+        raise NormError(f"struct {S} not found")
+    gn, ge = names_of(t, si + 2)
+    sb = t.index('{', ge)
+    fields, names = [], []
+    for nm, ty in fields_of(strip_attrs(t[sb + 1:close(t, sb)])):
+        if ty == [nm] and nm in gn:
+            names.append(nm); continue
+        if names:
+            raise NormError(f"struct {S}: a field follows the children")
+        if ty in (['utils', '::', 'Indexer'], ['Indexer']):
+            fields.append((nm, 'Indexer'))
+        elif ty in (['bool'], ['usize']):
+            fields.append((nm, ty[0]))
+        else:
+            raise NormError(f"R6: struct {S}: field `{nm}` has a type the rule does not cover: {' '.join(ty)}")
+    if len(names) != k:
+        raise NormError(f"struct {S} has {len(names)} children, expected {k}")
+    fields.append(('futures', '[Fut; N]'))
+    struct_txt = "pub struct Race<Fut, const N: usize> {\n%s}\n" % ''.join(f"    {n_}: {ty},\n" for n_, ty in fields)
+    pi = find(t, ['Future', 'for', S, '<'], si)
+    if pi < 0:
+        raise NormError(f"impl Future for {S} not found")
+    pf = find(t, ['fn', 'poll', '('], pi)
+    pb = t.index('{', close(t, pf + 2))
+    body = fold_assert(t[pb + 1:close(t, pb)])
+    en = ['#', '[', 'repr', '(', 'usize', ')', ']', 'enum', 'Indexes', '{'] + sum(([n_, ','] for n_ in names), []) + ['}']
+    if find(body, en) < 0:
+        raise NormError("R8: the local `#[repr(usize)] enum Indexes` does not list the children in order")
+    body = replace_all(body, en, [])
+    body = strip_attrs(body)
+    head = lambda F: ['if', 'i', '==', 'Indexes', '::', F, 'as', 'usize', '{']
+    i = find(body, head(names[0]))
+    if i < 0:
+        raise NormError("R3: no index dispatch found")
+    j, bodies = i, []
+    for F in names:
+        h = head(F)
+        if body[j:j + len(h)] != h:
+            raise NormError("R3: an arm of the index dispatch is missing or out of order")
+        e = close(body, j + len(h) - 1)
+        b = replace_all(body[j + len(h):e], ['unsafe', '{', 'Pin', '::', 'new_unchecked', '(', '&', 'mut', 'this', '.', F, ')', '}'], ['fut'])
+        if F in b:
+            raise NormError("R3: an arm mentions its child in a way the rule does not cover")
+        bodies.append(b)
+        j = e + 1
+        if j < len(body) and body[j] == ';':
+            j += 1
+    if body[j:j + 3] == ['if', 'i', '==']:
+        raise NormError("R3: more arms than children")
+    if any(b != bodies[0] for b in bodies):
+        raise NormError("R3: the arms of the index dispatch differ between children")
+    body = body[:i] + ['if', 'i', '<', 'N', '{', 'let', 'fut', '=', 'utils', '::', 'get_pin_mut', '(', 'this', '.', 'futures', '.', 'as_mut', '(', ')', ',', 'i', ')', '.', 'unwrap', '(', ')', ';'] + bodies[0] + ['}'] + body[j:]
+    if any(n_ in body for n_ in names if n_ != 'N') or 'Indexes' in body:
+        raise NormError("poll mentions a child outside the index dispatch")
+    if len(names) == 1:
+        ci = find(t, ['RaceTrait', 'for', '(', names[0], ',', ')'], si - 400 if False else 0)
+    ci = -1
+    pat = ['RaceTrait', 'for', '('] + (([names[0], ',', ')']) if k == 1 else (sum(([n_, ','] for n_ in names), [])[:-1] + [')']))
+    st = 0
+    while True:
+        c = find(t, pat, st)
+        if c < 0:
+            break
+        cf = find(t, ['fn', 'race', '(', 'self', ')'], c)
+        cb = t.index('{', cf)
+        if find(t[cb:close(t, cb)], [S, '{']) >= 0:
+            ci = c; break
+        st = c + 1
+    if ci < 0:
+        raise NormError("constructor impl not found")
+    cf = find(t, ['fn', 'race', '(', 'self', ')'], ci)
+    cb = t.index('{', cf)
+    cbody = t[cb + 1:close(t, cb)]
+    li_ = find(cbody, [S, '{'])
+    lit = replace_all(cbody[li_ + 2:close(cbody, li_ + 1)] + ['}'], [',', '}'], ['}'])[:-1]
+    inits, kidseen = [], []
+    for nm, v in fields_of(lit + [',']):
+        if nm in names and v == [nm, '.', 'into_future', '(', ')']:
+            kidseen.append(nm); continue
+        ones = ['0'] + ['+', '1'] * k
+        if v in (['utils', '::', 'Indexer', '::', 'new', '('] + ones + [')'], ['Indexer', '::', 'new', '('] + ones + [')']):
+            v2 = 'Indexer::new(N)'
+        elif len(v) == 1 and re.match(r'\d+$|true$|false$', v[0]):
+            v2 = v[0]
+        else:
+            raise NormError(f"R6: constructor: field `{nm}` is initialised in a way the rule does not cover: {' '.join(v)}")
+        inits.append((nm, v2))
+    if kidseen != names:
+        raise NormError("constructor: the children are not moved into their fields in order")
+    inits.append(('futures', 'futures'))
+    ctor_txt = ("impl<Fut, const N: usize> Race<Fut, N> {\n    pub(crate) fn new(futures: [Fut; N]) -> Self {\n        Race {\n%s        }\n    }\n}\n"
+                % ''.join(f"            {n_}: {v},\n" for n_, v in inits))
+    poll_txt = ("impl<Fut, const N: usize> Future for Race<Fut, N> {\n    type Output = Fut::Output;\n"
+                "    fn poll(self: Pin<&mut Self>, cx: &mut Context<'_>) -> Poll<Self::Output> {\n        %s\n    }\n}\n" % ' '.join(body))
+    return struct_txt + "\n" + ctor_txt + "\n" + poll_txt
+
+
+def norm_chain(t, k, repo):
+    """the tuple `chain` (src/stream/chain/tuple.rs): children are fields of the struct, the dispatch is `match *this.index {
+    <mod>::F => { let fut = <pin F>; B } … _ => unreachable!() }` over the constants `<mod>::F = Indexes::F as usize` (R8);
+    R9: the arm `v @ (Poll::Pending | Poll::Ready(Some(_))) => return v` is written as the two arms it stands for"""
+    S, M = 'Chain' + str(k), 'chain_' + str(k)
+    mi = find(t, ['mod', M, '{'])
+    if mi < 0:
+        raise NormError(f"module {M} not found")
+    me = close(t, mi + 2)
+    ei = find(t, ['enum', 'Indexes', '{'], mi, me)
+    if ei < 0:
+        raise NormError(f"{M}::Indexes not found")
+    names = [x for x in t[ei + 3:close(t, ei + 2)] if x != ',']
+    if len(names) != k or t[ei + 3:close(t, ei + 2)] != sum(([n_, ','] for n_ in names), []):
+        raise NormError(f"R8: {M}::Indexes does not list {k} children")
+    ai = ei
+    while ai > mi and t[ai] != '#':
+        ai -= 1
+    if t[ai:ai + 6] != ['#', '[', 'repr', '(', 'usize', ')']:
+        raise NormError(f"R8: {M}::Indexes is not #[repr(usize)]")
+    for n_ in names:
+        if find(t, ['const', n_, ':', 'usize', '=', 'Indexes', '::', n_, 'as', 'usize', ';'], mi, me) < 0:
+            raise NormError(f"R8: {M}::{n_} is not `Indexes::{n_} as usize`")
+    explen = ['const', 'LEN', ':', 'usize', '=', '['] + sum((['Indexes', '::', n_, ','] for n_ in names), [])[:-1] + [']', '.', 'len', '(', ')', ';']
+    if find(t, explen, mi, me) < 0:
+        raise NormError(f"R1: {M}::LEN is not the number of children")
+    si = find(t, ['struct', S, '<'])
+    if si < 0:
+        raise NormError(f"struct {S} not found")
+    gn, ge = names_of(t, si + 2)
+    if gn != names:
+        raise NormError(f"struct {S}: unexpected generics")
+    sb = t.index('{', ge)
+    fields, kidseen = [], []
+    for nm, ty in fields_of(strip_attrs(t[sb + 1:close(t, sb)])):
+        if ty == [nm] and nm in names:
+            kidseen.append(nm); continue
+        if kidseen:
+            raise NormError(f"struct {S}: a field follows the children")
+        if ty in (['bool'], ['usize']):
+            fields.append((nm, ty[0]))
+        else:
+            raise NormError(f"R6: struct {S}: field `{nm}` has a type the rule does not cover: {' '.join(ty)}")
+    if kidseen != names:
+        raise NormError(f"struct {S}: the children are not the fields {names}")
+    fields.append(('streams', '[S; N]'))
+    struct_txt = "pub struct Chain<S, const N: usize> {\n%s}\n" % ''.join(f"    {n_}: {ty},\n" for n_, ty in fields)
+    pi = find(t, ['Stream', 'for', S, '<'], si)
+    if pi < 0:
+        raise NormError(f"impl Stream for {S} not found")
+    pf = find(t, ['fn', 'poll_next', '('], pi)
+    pb = t.index('{', close(t, pf + 2))
+    body = fold_assert(strip_attrs(t[pb + 1:close(t, pb)]))
+    body = replace_all(body, [M, '::', 'LEN'], ['N'])
+    i = find(body, ['match', '*', 'this', '.', 'index', '{'])
+    if i < 0:
+        raise NormError("R3: `match *this.index { … }` not found")
+    e = close(body, i + 5)
+    arms, j, bodies = body[i + 6:e], 0, []
+    for F in names:
+        h = [M, '::', F, '=>', '{', 'let', 'fut', '=', 'unsafe', '{', 'Pin', '::', 'new_unchecked', '(', '&', 'mut', 'this', '.', F, ')', '}', ';']
+        if arms[j:j + len(h)] != h:
+            raise NormError("R3: an arm of `match *this.index` is missing or out of order")
+        ae = close(arms, j + 4)
+        b = arms[j + len(h):ae]
+        if F in b:
+            raise NormError("R3: an arm mentions its child in a way the rule does not cover")
+        bodies.append(b)
+        j = ae + 1
+        if j < len(arms) and arms[j] == ',':
+            j += 1
+    rest = arms[j:]
+    if rest[:2] != ['_', '=>'] or 'panic' not in rest or len(rest) > 12:
+        raise NormError("R3: the fallback arm of `match *this.index` is not `unreachable!()`")
+    if any(b != bodies[0] for b in bodies):
+        raise NormError("R3: the arms of `match *this.index` differ between children")
+    b0 = bodies[0]
+    r9 = ['v', '@', '(', 'Poll', '::', 'Pending', '|', 'Poll', '::', 'Ready', '(', 'Some', '(', '_', ')', ')', ')', '=>', 'return', 'v', ',']
+    if find(b0, r9) >= 0:
+        b0 = replace_all(b0, r9, ['Poll', '::', 'Ready', '(', 'Some', '(', 'item', ')', ')', '=>', 'return', 'Poll', '::', 'Ready', '(', 'Some', '(', 'item', ')', ')', ',',
+                                  'Poll', '::', 'Pending', '=>', 'return', 'Poll', '::', 'Pending', ','])
+    if '@' in b0:
+        raise NormError("R9: a binding pattern the rule does not cover")
+    rep = ['assert', '!', '(', '*', 'this', '.', 'index', '<', 'N', ')', ';',
+           'let', 'fut', '=', 'utils', '::', 'iter_pin_mut', '(', 'this', '.', 'streams', '.', 'as_mut', '(', ')', ')', '.', 'nth', '(', '*', 'this', '.', 'index', ')', '.', 'unwrap', '(', ')', ';'] + b0
+    body = body[:i] + rep + body[e + 1:]
+    if any(n_ in body for n_ in names if n_ != 'N') or M in body:
+        raise NormError("poll_next mentions a child outside the index dispatch")
+    pat = ['Chain', 'for', '('] + (([names[0], ',', ')']) if k == 1 else (sum(([n_, ','] for n_ in names), [])[:-1] + [')']))
+    ci = find(t, pat, si)
+    if ci < 0:
+        raise NormError("constructor impl not found")
+    cf = find(t, ['fn', 'chain', '(', 'self', ')'], ci)
+    cb = t.index('{', cf)
+    cbody = t[cb + 1:close(t, cb)]
+    li_ = find(cbody, ['Self', '::', 'Stream', '{'])
+    if li_ < 0:
+        raise NormError("constructor: struct literal not found")
+    lit = replace_all(cbody[li_ + 4:close(cbody, li_ + 3)] + ['}'], [',', '}'], ['}'])[:-1]
+    parts, cur, d = [], [], 0
+    for x in lit:
+        if x == ',' and d == 0:
+            parts.append(cur); cur = []
+        else:
+            d += x in '({[' and 1 or 0
+            d -= x in ')}]' and 1 or 0
+            cur.append(x)
+    if cur:
+        parts.append(cur)
+    inits, kidseen = [], []
+    for pz in parts:
+        if len(pz) == 1 and pz[0] in names:
+            kidseen.append(pz[0]); continue
+        nm, v = pz[0], pz[2:]
+        if len(v) == 1 and re.match(r'\d+$|true$|false$', v[0]):
+            inits.append((nm, v[0]))
+        else:
+            raise NormError(f"R6: constructor: field `{nm}` is initialised in a way the rule does not cover: {' '.join(v)}")
+    if kidseen != names:
+        raise NormError("constructor: the children are not moved into their fields in order")
+    inits.append(('streams', 'streams'))
+    ctor_txt = ("impl<S, const N: usize> Chain<S, N> {\n    pub(crate) fn new(streams: [S; N]) -> Self {\n        Chain {\n%s        }\n    }\n}\n"
+                % ''.join(f"            {n_}: {v},\n" for n_, v in inits))
+    poll_txt = ("impl<S, const N: usize> Stream for Chain<S, N> {\n    type Item = S::Item;\n"
+                "    fn poll_next(self: Pin<&mut Self>, cx: &mut Context<'_>) -> Poll<Option<Self::Item>> {\n        %s\n    }\n}\n" % ' '.join(body))
+    return struct_txt + "\n" + ctor_txt + "\n" + poll_txt
+
 _CACHE = {}
 
 def normalised(repo, family, features='std'):
@@ -784,7 +1016,7 @@ def normalised(repo, family, features='std'):
     t = _CACHE[key]
     texts = {}
     for k in range(1, 13):
-        texts[k] = norm_merge(t, k, repo) if family == 'merge' else norm_zip(t, k, repo) if family == 'zip' else norm_family(family, t, k, repo)
+        texts[k] = norm_merge(t, k, repo) if family == 'merge' else norm_zip(t, k, repo) if family == 'zip' else norm_race(t, k, repo) if family == 'race' else norm_chain(t, k, repo) if family == 'chain' else norm_family(family, t, k, repo)
     for k in range(2, 13):
         if texts[k] != texts[1]:
             a, b = texts[1].split(), texts[k].split()
